@@ -14,6 +14,8 @@ sym_born       symmetrize_borns_and_epsilon (_take_average_of_borns, _symmetrize
                in E2 on *symbolic* Born and dielectric tensors: output == space-group average (harness oracle, Cartesian rotations
                checked orthogonal) minus the mean charge; dielectric tensor == point-group average; a second application changes
                nothing; tensors selected for a primitive cell belong to the atoms at the primitive positions.  LRA.
+gl_periodic    Gonze-Lee: D(q+G0) == U D(q) U^dagger (U = diag e^{-2 pi i G0.tau}) for all force constants, to the reciprocal-sum
+               precision - ties the phase convention of the dipole-dipole kernel (which has no Python twin) to the Fourier sum's.
 gl_direction   Gonze-Lee: D(Gamma; n) - D(Gamma; n0) == term(n) - term(n0) for symbolic n (Z, eps concrete, real
                make_Gonze_nac_dataset run concretely) and D(Gamma; n0) ~ D_plain + term(n0) to the reciprocal-sum precision.
 """
@@ -35,7 +37,7 @@ FACTOR = 14.4
 def units(tier):
     u = [("wang_gamma", "tric2", "211", "Zeps"), ("wang_gamma", "tric2", "211", "n"),
          ("wang_length", "tric2", "211"), ("wang_comm", "tric2", "211"), ("zero_born", "tric2", "211", "wang"),
-         ("zero_born", "tric2", "211", "gonze"), ("gl_direction", "tric2", "211")]
+         ("zero_born", "tric2", "211", "gonze"), ("gl_direction", "tric2", "211"), ("gl_periodic", "tric2", "211")]
     u += [("sym_born", c, "-") for c in SB_CRYSTALS]
     if tier == "thorough":
         u += [("wang_gamma", "mono2", "nd1", "Zeps"), ("wang_gamma", "hex2", "211", "n"), ("wang_comm", "cscl", "311"), ("wang_gamma", "tric2", "211", "all"),
@@ -221,7 +223,7 @@ def run_unit(u):
         return sym_born_unit(u, res)
     ctx = harness.setup()
     kind, gid, sid = u[0], u[1], u[2]
-    method = "gonze" if (kind == "gl_direction" or (kind == "zero_born" and u[3] == "gonze")) else "wang"
+    method = "gonze" if (kind in ("gl_direction", "gl_periodic") or (kind == "zero_born" and u[3] == "gonze")) else "wang"
     case, rng = make_case(gid, sid, method)
     br = bridge.Bridge(ctx.shim, ctx.ir)
     br.install()
@@ -360,6 +362,28 @@ def run_unit(u):
                     ok, what = replay_zero_born(gid, sid, method, harness.model_floats(m, xs), q)
                     (res.violations if ok else res.unconfirmed).append({"key": "%s:zero_born:%s:q%d" % (PID, method, qi), "what": what, "replay": {"unit": [str(x) for x in u], "q": q}})
             res.twins.append({"name": "zero-born twin", "verdict": "sat"})
+        elif kind == "gl_periodic":
+            # Gonze-Lee dynamical matrix (short-range force constants + reciprocal dipole-dipole kernel) under q -> q + G0:
+            # D(q+G0)_{jj'} = e^{2 pi i G0.(tau_j' - tau_j)} D(q)_{jj'} up to the reciprocal-sum truncation.  The dipole-dipole
+            # kernel has no Python twin; this identity ties its phase convention to the one of the Fourier sum.
+            xs, fc = case.sym_full_fc()
+            A = box(xs)
+            q = [0.1, 0.2, 0.3]; G0 = [1, 0, 0]
+            D = case.D_c(br, fc, [q, [a + g for a, g in zip(q, G0)]], dm=dm)
+            pos = case.prim.scaled_positions
+            U = np.repeat(np.exp(-2j * np.pi * (pos @ np.array(G0, dtype=float))), 3)
+            rhs = symnp._zeros(D[0].shape, 'c')
+            for a in range(D[0].shape[0]):
+                for b in range(D[0].shape[1]):
+                    rhs[a, b] = D[0][a, b] * complex(U[a] * np.conj(U[b]))
+            v, m, idx = assert_equal(res, "Gonze-Lee D(q+G0) == U D(q) U^dagger within the reciprocal-sum precision 1e-5 (q=%s, G0=%s)" % (q, G0), cflat(D[1]), cflat(rhs), A, tol=1e-5, chunk=12)
+            if v == "sat":
+                ok, what = replay_gl_periodic(gid, sid, harness.model_floats(m, xs), q, G0)
+                (res.violations if ok else res.unconfirmed).append({"key": "%s:gl_periodic:%s/%s" % (PID, gid, sid), "what": what, "replay": {"unit": [str(x) for x in u]}})
+            elif v == "unknown":
+                res.notes.append("inconclusive gl_periodic")
+            v2, _, _ = assert_equal(Result("t"), "twin", cflat(D[1]), cflat(D[0]), A, tol=1e-5, chunk=12)
+            res.twins.append({"name": "gl_periodic twin: D(q+G0) != D(q) without the phase factors", "verdict": v2})
         elif kind == "gl_direction":
             ns = harness.reals("n", 3)
             A = box(ns, -1, 1) + [ns[0] * ns[0] + ns[1] * ns[1] + ns[2] * ns[2] >= Fraction(1, 4)]
@@ -437,6 +461,22 @@ def _decide(res, u, sub, v, m, zs, evars, ns, case, fc_conc, Zc, mode, lam=None,
     nfr = [model_value(m, x) for x in ns] if ns else [0.3, -0.2, 0.5]
     ok, what = replay_wang(case, fc_conc, Z, eps, nfr, sub, lam=(model_value(m, lam) if lam is not None else None), q=q)
     (res.violations if ok else res.unconfirmed).append({"key": key, "what": what, "replay": {"Z": Z.tolist(), "eps": eps.tolist(), "n": nfr}})
+
+
+@symnp.outside_session
+def replay_gl_periodic(gid, sid, x, q, G0):
+    case, rng = make_case(gid, sid, "gonze")
+    ph = geometries.phonopy_obj(gid, sid)
+    n = len(ph.supercell)
+    ph.force_constants = np.array(x, dtype="double").reshape(n, n, 3, 3)
+    ph.nac_params = case.nac
+    dm = ph.dynamical_matrix
+    dm.run(np.array(q, dtype=float)); D0 = dm.dynamical_matrix.copy()
+    dm.run(np.array(q, dtype=float) + np.array(G0, dtype=float)); D1 = dm.dynamical_matrix.copy()
+    U = np.repeat(np.exp(-2j * np.pi * (ph.primitive.scaled_positions @ np.array(G0, dtype=float))), 3)
+    d = float(np.abs(D1 - U[:, None] * D0 * U.conj()[None, :]).max())
+    de = float(np.abs(np.linalg.eigvalsh(D1) - np.linalg.eigvalsh(D0)).max())
+    return d > 1e-5, "Gonze-Lee dynamical matrix: D(q+G0) differs from U D(q) U^dagger by %.3g (eigenvalues by %.3g) for q=%s, G0=%s: the spectrum is not periodic in reciprocal space" % (d, de, q, G0)
 
 
 @symnp.outside_session
